@@ -51,7 +51,9 @@ class LindbladForm(RedfieldRelaxationTensor):
         if sbi is None:
             KK = numpy.zeros((1, Na, Na), dtype=REAL)
         else:
-            KK = sbi.KK
+            # the tensor keeps its own copy: its operators are transformed
+            # with the basis, those of the system-bath interaction must not be
+            KK = sbi.KK.copy()
             
         self._post_implementation(KK, llm, lld)
 
